@@ -655,6 +655,16 @@ def run_verdict(tier="quick", seed=0):
                     if shown != want[2:]:
                         classes.setdefault("normal-form-differs", []).append(
                             f"CEX cli_check_verdict class=normal-form-differs `zerv check --format {fmt} -- {t!r}` reports {shown!r}, the parser prints {want[2:]!r}")
+            # the verdict is a function of the string: what happens to be on stdin (check does not read a version from it) must not change it
+            for t in ("1.2.3", "1.2", "not-a-version"):
+                for what, data in (("bytes that are not UTF-8", b"\xff\xfe\x00junk"), ("an unrelated text", b"hello\n")):
+                    res["cases"] += 1
+                    rc0, out0, _ = _run(zerv, ["check", "--format", fmt, "--", t], None, work, env)
+                    rc1, out1, err1 = _run(zerv, ["check", "--format", fmt, "--", t], data, work, env)
+                    if rc0 != rc1 or out0 != out1:
+                        classes.setdefault("verdict-depends-on-stdin", []).append(
+                            f"CEX cli_check_verdict class=verdict-depends-on-stdin `zerv check --format {fmt} -- {t!r}` with {what} on stdin: status {rc1} "
+                            f"{err1.decode('utf-8', 'replace').strip()[:100]!r}; with an empty stdin: status {rc0}")
     finally:
         shutil.rmtree(work, ignore_errors=True)
     res["wall_s"] = round(time.time() - t0, 2)
